@@ -159,7 +159,7 @@ func TestCheck(t *testing.T) {
 		}
 	}()
 	ctx := context.Background()
-	n := int64(cfg.Pick(80, 600))
+	n := int64(cfg.Pick(300, 600))
 	rep.Cases(n, func(idx int64, rng *mon.Rand) {
 		if idx%5 == 4 {
 			componentCase(ctx, rep, rng)
